@@ -178,6 +178,34 @@ func c06(w *core.World, r *core.Report) {
 	r.Rule("ARMED-OR-RELEASED", 5, "never-wedge, structural part: in TransactionSet (a) a failed RegisterTransaction returns without waiting (no CFG cycle contains the call), (b) 'defer guard.Done()' is the first call on the success edge of RegisterTransaction, (c) guard.Success() — which keeps the transaction registered — executes only on the true outcome of Transaction.IsRollbackTimerRunning() of the registered transaction and on the err==nil outcome of lowlevelTransactionSet, (d) IsRollbackTimerRunning / TransactionCancelTimer.IsRunning report 'done != nil' under doneMutex, (e) the guard's cleanup closure reaches CleanupTransaction and Done() invokes it. Decides: every return of TransactionSet either leaves a running rollback timer or unregisters the transaction.")
 	armedOrReleased(w, r, txset, register)
 
+	// ---- SLOT-CLEARED-ON-EXPIRY
+	r.Rule("SLOT-CLEARED-ON-EXPIRY", 1, "in every TransactionManager method reachable from the timer callback (Transaction.rollback) that calls RollbackInterface.TransactionRollback, every path from that call to a function exit clears the transaction slot (store nil, or CleanupTransaction) — whatever the rollback returned. Decides: after the timeout the datastore accepts a new transaction even if the automatic rollback failed.")
+	{
+		tcb := w.Func("pkg/datastore/types", "Transaction", "rollback")
+		if tcb != nil {
+			reach := w.CG().Reachable(func(e core.Edge) bool { return e.Kind == "ref" || e.Kind == "dynamic-sig" }, tcb)
+			for _, f := range w.RepoFns {
+				if !reach[f] || f.Signature.Recv() == nil || core.TypeKey(f.Signature.Recv().Type()) != kTM {
+					continue
+				}
+				for _, c := range core.CallsTo(f, kRollbackIface) {
+					after, tr := core.AlwaysAfter(c, func(in ssa.Instruction) bool {
+						if st, ok := in.(*ssa.Store); ok {
+							if fa, ok := st.Addr.(*ssa.FieldAddr); ok && core.FieldKey(fa) == kTMSlot && core.IsNilConst(st.Val) {
+								return true
+							}
+						}
+						if cc, ok := in.(ssa.CallInstruction); ok && core.CalleeIs(cc, kCleanupTx) {
+							return true
+						}
+						return false
+					})
+					r.Check(after, "SLOT-CLEARED-ON-EXPIRY", core.Site(f, "after TransactionRollback"), w.InstrPos(c), fmt.Sprintf("the slot must be cleared on every path after the automatic rollback, also when it failed (path without: blocks %v)", tr))
+				}
+			}
+		}
+	}
+
 	// ---- TIMER-ON-SUCCESS
 	r.Rule("TIMER-ON-SUCCESS", 3, "in lowlevelTransactionSet StartRollbackTimer executes only after applyIntent and every cache.Client.Modify of the function returned err==nil (set-dominance + error guards), only when !IsRollback(), and its error is returned.")
 	for _, c := range core.CallsTo(low, kStartTimer) {
